@@ -11,10 +11,10 @@ git -C /repo worktree add -q --detach $wt HEAD || exit 2
 cleanup() { git -C /repo worktree remove --force $wt; }
 trap cleanup EXIT INT TERM
 cd $wt
-/venv/bin/python setup.py -q build_ext -i -f -j16 >/dev/null 2>&1 || { echo "baseline build failed"; exit 2; }
+BTREES_VERIF=${HOOK:-0} /venv/bin/python setup.py -q build_ext -i -f -j16 >/dev/null 2>&1 || { echo "baseline build failed"; exit 2; }
 PYTHONPATH=$wt/src /venv/bin/python "$demo" >/tmp/confirm_$name.base.log 2>&1; base=$?
 git apply "$patch" || { echo "RESULT $name: patch does not apply to HEAD"; exit 1; }
-/venv/bin/python setup.py -q build_ext -i -f -j16 >/dev/null 2>&1 || { echo "RESULT $name: does not build"; exit 1; }
+BTREES_VERIF=${HOOK:-0} /venv/bin/python setup.py -q build_ext -i -f -j16 >/dev/null 2>&1 || { echo "RESULT $name: does not build"; exit 1; }
 tests=$(PYTHONPATH=$wt/src /venv/bin/python -m pytest -q -p no:cacheprovider --timeout=900 src/BTrees 2>&1 | tail -1)
 PYTHONPATH=$wt/src /venv/bin/python "$demo" >/tmp/confirm_$name.mut.log 2>&1; mut=$?
 echo "RESULT $name: demo unchanged=$base, demo with change=$mut, tests: $tests"
